@@ -115,4 +115,14 @@ def genInit (a len cap occ : Nat) (recv cancelled guardSingle : Bool) : GenSt :=
   { todo := hostsSlice a len 0 (cap + 2), free := cap - occ, recv := recv, cancelled := cancelled,
     guarded := if len ≥ 31 then guardSingle else true, returned := false }
 
+/-- let the uncancelled generator run as far as it can on its own (send while a send is enabled, then finish) -/
+def advance : Nat → GenSt → GenSt
+  | 0, s => s
+  | n + 1, s =>
+    match gstep s .send with
+    | some s' => advance n s'
+    | none => match gstep s .finish with
+      | some s' => s'
+      | none => s
+
 end LLRP.Discover
